@@ -29,5 +29,5 @@ Separate Extraction
   HttpMon.hmonitor
   SubFsm.step SubFsm.init SubFsm.sst_num SubFsm.can_get
   CoreKv.kstep CoreKv.kinit CoreKv.ktruth
-  ValueDec.decode
-  RespDec.decode_get RespDec.decode_call.
+  ValueDec.decode ValueDec.read ValueDec.markers
+  RespDec.decode_get RespDec.decode_call RespDec.proper.
